@@ -18,8 +18,11 @@ class C09(Prop):
     rule = ("histories for the real NewMergeHandler with 2-4 scripted children, one message in flight at a time: 1-5 "
             "EVENT/COUNT requests (ids from 3 event ids / 2 subscription ids, re-used one after the other), up to 4 in "
             "flight, every child answers every request once (FIFO per child and id) with random verdict, prefix, text "
-            "resp. count 0..4 and approximate flag, replies interleaved at random; some unsolicited replies, some REQ "
-            "traffic, 8% cut short; the last n/100 (8..40) histories may re-use an id that is still in flight (finding "
+            "resp. count 0..4 and approximate flag, replies interleaved at random; some unsolicited replies, 8% cut short; "
+            "18% of the steps are REQ traffic (client REQ / CLOSE, child EOSE) mostly under the id of an EVENT or COUNT "
+            "in flight or of the COUNT id universe (a CLOSE or REQ must not disturb the aggregation); first, in every "
+            "tier, 276 enumerated histories: one EVENT/COUNT, n=2,3, each reply order, a client CLOSE resp. REQ with "
+            "the same id inserted at every position, with no / a finished / a pending subscription of that id; the last n/100 (8..40) histories may re-use an id that is still in flight (finding "
             "K1) and comes last so that failures of the guarded class are met first; non-trivial = an aggregated reply "
             "was produced from children that disagreed; distinct = distinct JSON of the inputs")
     trusted_base = COMMON_TRUSTED + [
